@@ -105,6 +105,9 @@ class ComponentLevel3( ComponentLevel2 ):
     # Shunning: bugfix:
 
     blk_name = "_lambda__{}".format( repr(o).replace(".","_").replace("[", "_").replace("]", "_").replace(":", "_") )
+    # Different signals can be mapped to the same name (s.a.b and s.a_b)
+    while blk_name in s._dsl.name_upblk or blk_name in s._dsl.name_func:
+      blk_name += "_"
     lambda_upblk = ast.FunctionDef(
       name=blk_name,
       args=ast.arguments(args=[], vararg=None, kwonlyargs=[], kw_defaults=[], posonlyargs=[], kwarg=None, defaults=[]),
